@@ -26,8 +26,11 @@ def genome(n):
     return g
 
 
+VIS_SPACE = "\u2420"      # a space inside a name travels through the space-separated line protocol as this symbol
+
+
 def opt(tok):
-    return None if tok == "~" else tok
+    return None if tok == "~" else tok.replace(VIS_SPACE, " ")
 
 
 def blocks(tk):
@@ -70,11 +73,11 @@ def impl_bed_op(line):
                 kw = dict(cds_starts=cs, cds_ends=ce, cds_frames=[CDSFrame.ZERO] * len(cs))
             iv = TranscriptInterval(es, ee, st, transcript_symbol=symbol, transcript_id=ident,
                                     sequence_name=seq_name, parent_or_seq_chunk_parent=parent, **kw)
-            name = {"sym": "transcript_symbol", "id": "transcript_id"}.get(sel, sel[4:])
+            name = {"sym": "transcript_symbol", "id": "transcript_id"}.get(sel, sel[4:].replace(VIS_SPACE, " "))
         else:
             iv = FeatureInterval(es, ee, st, feature_name=symbol, feature_id=ident, sequence_name=seq_name,
                                  parent_or_seq_chunk_parent=parent)
-            name = {"sym": "feature_name", "id": "feature_id"}.get(sel, sel[4:])
+            name = {"sym": "feature_name", "id": "feature_id"}.get(sel, sel[4:].replace(VIS_SPACE, " "))
         # call history: on every other line the SAME object is first exported in the other coordinate mode (and once
         # more in the requested one); the record must not depend on what was exported before
         import zlib
@@ -85,7 +88,7 @@ def impl_bed_op(line):
                 except Exception:  # noqa: the other mode may legitimately be refused (no chunk ancestor)
                     pass
         bed = iv.to_bed12(score=score, rgb=RGB(r, g, b), name=name, chromosome_relative_coordinates=chrom_rel)
-        s = str(bed)
+        s = str(bed).replace(" ", VIS_SPACE)
         if " " in s or "\n" in s:
             raise AssertionError("answer not a single token")
         return "ok " + s
